@@ -1,0 +1,1 @@
+//! Hooks for property C40 (empty unless needed).
